@@ -118,3 +118,16 @@ Theorem check_step_keeps_node :
     exists cs', step S (Some ((n, cs), outs)) (OpCheck S raw) = Some ((n, cs'), outs).
 Proof. exact MuxProofs.check_step_keeps_node. Qed.
 Print Assumptions check_step_keeps_node.
+
+(* Failed consensus rounds (own proposals prepared, foreign proposals processed) leave a
+   cache behind; every path still computes the reference result, given the commit-info
+   hypothesis at each reuse -- or two different blocks share a block hash. *)
+Theorem stale_rounds_harmless :
+  forall (S : msig) (base : list (app S)) (n : node S) (sts : list stale) (p : path S) (b : block),
+    n_cache S n = None -> stale_ok S n sts -> path_ok S base b p -> b_hash b <> [] ->
+    commit_as_prepared S (fold_left (apply_stale S) sts n) b ->
+    run_path S p (fold_left (apply_stale S) sts n) b
+      = reference S (path_cfg S p n) (path_regs S p n) (n_committed S n) b
+    \/ collision.
+Proof. exact MuxProofs.stale_rounds_harmless. Qed.
+Print Assumptions stale_rounds_harmless.
